@@ -85,7 +85,7 @@ func mutexID(v ssa.Value) string {
 	case *ssa.FieldAddr:
 		return NamedTypeRel(x.X.Type()) + "." + fieldName(x.X.Type(), x.Field)
 	case *ssa.Global:
-		return "global:" + x.Name()
+		return "global:" + GlobalName(x)
 	case *ssa.UnOp:
 		if x.Op == token.MUL {
 			return mutexID(x.X)
@@ -117,8 +117,8 @@ func ComputeLocksets(p *Prog) *Locksets {
 	}
 	callers := map[*ssa.Function][]ssa.Instruction{}
 	escapes := map[*ssa.Function]bool{}
-	for _, fn := range p.Funcs {
-		EachInstr(fn, func(i ssa.Instruction) {
+	for _, fn := range p.AllFuncs {
+		EachInstrRaw(fn, func(i ssa.Instruction) {
 			if c := CallOf(i); c != nil {
 				if f := StaticFunc(c); f != nil {
 					if _, plain := i.(*ssa.Call); plain {
@@ -154,15 +154,15 @@ func ComputeLocksets(p *Prog) *Locksets {
 	// named types whose values are converted to an interface somewhere in the
 	// module: their methods may be invoked dynamically
 	ifaceTypes := map[string]bool{}
-	for _, fn := range p.Funcs {
-		EachInstr(fn, func(i ssa.Instruction) {
+	for _, fn := range p.AllFuncs {
+		EachInstrRaw(fn, func(i ssa.Instruction) {
 			if mi, ok := i.(*ssa.MakeInterface); ok {
 				ifaceTypes[NamedType(mi.X.Type())] = true
 			}
 		})
 	}
 	top := LockSet{"⊤": true}
-	for _, fn := range p.Funcs {
+	for _, fn := range p.AllFuncs {
 		dyn := false
 		if recv := fn.Signature.Recv(); recv != nil && isExportedOrIface(fn) {
 			// exported method: callable from outside the module if the type is
@@ -182,11 +182,11 @@ func ComputeLocksets(p *Prog) *Locksets {
 		}
 	}
 	for iter := 0; iter < 10; iter++ {
-		for _, fn := range p.Funcs {
+		for _, fn := range p.AllFuncs {
 			ls.analyse(fn)
 		}
 		changed := false
-		for _, fn := range p.Funcs {
+		for _, fn := range p.AllFuncs {
 			if len(ls.entry[fn]) == 0 {
 				continue
 			}
@@ -217,12 +217,12 @@ func ComputeLocksets(p *Prog) *Locksets {
 		}
 	}
 	// anything still ⊤ (only called from unresolved cycles): nothing held
-	for _, fn := range p.Funcs {
+	for _, fn := range p.AllFuncs {
 		if ls.entry[fn]["⊤"] {
 			ls.entry[fn] = LockSet{}
 		}
 	}
-	for _, fn := range p.Funcs {
+	for _, fn := range p.AllFuncs {
 		ls.analyse(fn)
 	}
 	return ls
@@ -310,8 +310,8 @@ type Access struct {
 // map update, range, next).
 func GuardedAccesses(p *Prog, g *Guard) []Access {
 	var out []Access
-	for _, fn := range p.Funcs {
-		EachInstr(fn, func(i ssa.Instruction) {
+	for _, fn := range p.AllFuncs {
+		EachInstrRaw(fn, func(i ssa.Instruction) {
 			var addr ssa.Value
 			switch x := i.(type) {
 			case *ssa.FieldAddr:
@@ -326,7 +326,7 @@ func GuardedAccesses(p *Prog, g *Guard) []Access {
 			if g.Type == "" {
 				var ops []*ssa.Value
 				for _, op := range i.Operands(ops) {
-					if gl, ok := (*op).(*ssa.Global); ok && Rel(gl.Pkg.Pkg.Path())+"."+gl.Name() == g.Field {
+					if gl, ok := (*op).(*ssa.Global); ok && Rel(gl.Pkg.Pkg.Path())+"."+GlobalName(gl) == g.Field {
 						out = append(out, Access{fn, i, "access to " + g.Field})
 						if ld, ok := i.(*ssa.UnOp); ok && isRefType(ld.Type()) && !swappedOut(ld, gl) {
 							out = append(out, usesOf(fn, ld, g.Field)...)
